@@ -152,7 +152,7 @@ class SparseLinearModel(LinearModel):
         return np.linalg.norm(self.W_, axis=1, ord=2).sum()
 
     def fit(self, X, y=None):
-        validate_data(self, X)
+        X = validate_data(self, X)
         self.groups_ = check_groups(self.groups, X.shape[1])  # Intercept to check that group forms a partition
         return super().fit(X, y)
 
